@@ -23,6 +23,8 @@ C12_NoUseAfterRelease == J => \A o \in Objs : Final(o) # "BAD:written-after-rele
 \* the acknowledgement path gives that request back is the request, byte for byte
 \* ... and what is remembered for later (the reply kept for a message ID) does not live in a message that went back to the pool: after
 \* other exchanges have used the pooled objects, a duplicate is answered with the first reply, byte for byte (mode dupcache)
-C12_CopiesIntact == J => (T.mode \in {"retx", "dupcache"} => T.garbled = 0)
+\* ... and a request handed to a request call is the application's again when the call returns: the library does not go on reading
+\* its body (mode bwpark: the call's context ends while the receive path cuts the next block out of the request)
+C12_CopiesIntact == J => (T.mode \in {"retx", "dupcache", "bwpark"} => T.garbled = 0)
 C12_Ran == J => (T.done /\ Len(T.log) > 0)
 =============================================================================
